@@ -25,6 +25,7 @@ ASSUMPTIONS = ["positions within the library's documented np.isclose tolerance b
 
 IVALS = ["1", "2", "0.5", "0.25", "0.1", "0.3", "0.001", "3", "1000"]
 OFFS = ["0", "0.1", "-0.1", "2.5", "-2.5", "3", "-3", "3.1", "1000", None]
+LAYER_B = ['C07']      # monitors of nixmon/passive/plugin.py run over the repository's own tests in the thorough tier
 NSHARDS = 16
 
 
